@@ -51,7 +51,7 @@ fn main() {
             }
         });
         ctx.group("windows-and-chunks", |ctx| {
-            let lens: Vec<usize> = if ctx.lite { vec![0, 2, 7] } else { (0..=12).chain(boundary_lengths(2, 3)).collect() };
+            let lens: Vec<usize> = if ctx.lite { vec![0, 2, 7] } else { (0..=12).chain(boundary_lengths(2, 3)).chain(long_lengths(2)).collect() };
             for n in lens {
                 for rep in 0..ctx.n(40, 1500, 1) {
                     if ctx.over() {
@@ -79,6 +79,21 @@ fn main() {
                         }
                         Err(pm) => check!(ctx, false, format!("translate|dna|panics|{}", if n < 3 { "n<3" } else { "n>=3" }), "{what}: translating by windows/chunks panicked: {pm}"),
                     }
+                    // the adaptors that go through the iterator's own nth(): skip / step_by / nth then continue
+                    if rep < 3 && n <= 70 && !ctx.lite {
+                        for (c, dt) in adaptor_laws(&|| s.windows(3), &|c: &SeqSlice<Dna>| STANDARD.to_amino(c).to_char() as u8, &want_w) {
+                            check!(ctx, false, format!("translate-by-windows.{c}|dna"), "{what}: windows(3): {dt}");
+                        }
+                        for (c, dt) in adaptor_laws(&|| s.chunks(3), &|c: &SeqSlice<Dna>| STANDARD.to_amino(c).to_char() as u8, &want_c) {
+                            check!(ctx, false, format!("translate-by-chunks.{c}|dna"), "{what}: chunks(3): {dt}");
+                        }
+                        // reading frames: windows(3).skip(f).step_by(3) == chunks(3) of the shifted sequence
+                        for f in 0..3usize.min(n) {
+                            let fr: Vec<u8> = s.windows(3).skip(f).step_by(3).map(|c| STANDARD.to_amino(c).to_char() as u8).collect();
+                            let wf: Vec<u8> = codes[f..].chunks_exact(3).map(|w| model::ncbi_amino(w[0], w[1], w[2])).collect();
+                            check!(ctx, fr == wf, "translate-reading-frame|dna|wrong".to_string(), "{what}: frame {f} via windows(3).skip({f}).step_by(3) = {:?} want {:?}", String::from_utf8_lossy(&fr), String::from_utf8_lossy(&wf));
+                        }
+                    }
                     cell!(ctx, "translate/{}", if n < 3 { "n<3".to_string() } else { len_class(2, n) });
                     ctx.nontrivial(fp(&[b"w", &codes, &[pad as u8]]));
                 }
@@ -86,6 +101,6 @@ fn main() {
             ctx.sample(|| json!({"sequences": "random DNA of every length 0..12 and word-boundary classes, at rotating offsets", "translated_by": ["windows(3)", "chunks(3)"]}));
         });
         ctx.note("exhaustive", json!(true));
-        ctx.note("rule", json!("complete grid: 64 codons x 41 start positions (all 32 even bit offsets, both word-straddling placements) through STANDARD.to_amino, plus all 64 six-bit patterns through Amino::try/unsafe_from_bits, against NCBI table 1; random DNA (every length 0..12, boundary classes to 3 words, rotating offsets) translated by windows(3) and chunks(3) position by position. Distinct = (codon, position) resp. (sequence, pad)."));
+        ctx.note("rule", json!("complete grid: 64 codons x 41 start positions (all 32 even bit offsets, both word-straddling placements) through STANDARD.to_amino, plus all 64 six-bit patterns through Amino::try/unsafe_from_bits, against NCBI table 1; random DNA (every length 0..12, boundary classes to 3 words, rotating offsets) translated by windows(3) and chunks(3) position by position, also through nth/skip/step_by (reading frames) and on long sequences (4..33 machine words). Distinct = (codon, position) resp. (sequence, pad)."));
     });
 }
